@@ -142,6 +142,7 @@ func (m *machine) note(p string) {
 type traits struct {
 	deletePresent, prefixPair, emptyPath, versionBump, reopen bool
 	absentPrefixDelete, absentExtDelete, oversize, emptyValue bool
+	coldReader                                                bool
 }
 
 func properPrefixPair(keys []string, p string) bool {
@@ -236,6 +237,13 @@ func runHistory(rt *rapid.T, kind string, fixed bool) {
 				m.failf("over-size insert changed the root")
 			}
 			tr.oversize = true
+		case k < 87: // a second reader with its own cold node cache walks the whole trie; the first trie goes on afterwards
+			m.hist = append(m.hist, op{Kind: "cold-reader"})
+			got, err := mptkit.Content(util.CloneMPT(m.mpt))
+			if err != nil || !mptkit.EqualContent(got, m.model) {
+				m.failf("a cold clone iterates to %s (%v)", mptkit.Show(got), err)
+			}
+			tr.coldReader = true
 		case k < 90: // typed get
 			p := genPath("p")
 			m.hist = append(m.hist, op{Kind: "gettyped", Path: p})
@@ -278,6 +286,7 @@ func runHistory(rt *rapid.T, kind string, fixed bool) {
 	add(tr.reopen, "reopen")
 	add(tr.oversize, "oversize")
 	add(tr.emptyValue, "empty-value-delete")
+	add(tr.coldReader, "cold-second-reader")
 	var sb strings.Builder
 	sb.WriteString(kind)
 	for _, o := range m.hist {
